@@ -13,7 +13,8 @@ fn first_header_garbage(full: bool) {
     let magic_ok = b[0] == LZIP_MAGIC[0] && b[1] == LZIP_MAGIC[1] && b[2] == LZIP_MAGIC[2] && b[3] == LZIP_MAGIC[3];
     let valid = n == 6 && magic_ok && b[4] == LZIP_VERSION && crate::lzip::decode_dict_size(b[5]).is_ok();
     kani::assume(!valid);
-    let mut r = LZIPReader::new(src).unwrap();
+    let mut src = src;
+    let mut r = LZIPReader::new(&mut src).unwrap();
     // start_next_member() is what read() calls first; Ok(false) is what read() turns into "end of data, Ok(0)".
     // (Calling read() itself sends CBMC through the LZMA decode loop on the - infeasible - valid-header path: > 20 min.)
     let res = r.start_next_member();
@@ -43,7 +44,8 @@ fn c04d_lzip_first_header_truncated() { first_header_garbage(false); }
 #[kani::unwind(10)]
 #[kani::stub(crate::decoder::LZMADecoder::new, crate::decoder::verif_stubs_dec::verif_havoc_decoder)]
 fn c07e_lzip_zero_len_read() {
-    let mut r = LZIPReader::new(Src::<6>::any()).unwrap();
+    let mut src = Src::<6>::any();
+    let mut r = LZIPReader::new(&mut src).unwrap();
     let res = r.read(&mut []);
     assert!(matches!(res, Ok(0)));
     assert!(r.inner.as_ref().unwrap().pos == 0, "C07-E: zero-length read consumed input");
@@ -64,7 +66,8 @@ fn c04c_lzip_trailer_fields() {
         buf[5 + i] = trailer[i];
         i += 1;
     }
-    let counting = CountingReader::new(Src::<25>::full(buf));
+    let mut src = Src::<25>::full(buf);
+    let counting = CountingReader::new(&mut src);
     let lz = LZMAReader::new(counting, u64::MAX, 3, 0, 2, 4096, None).unwrap(); // consumes the 5 init bytes
     let data: [u8; 2] = kani::any();
     let mut digest = CRC32.digest();
@@ -101,7 +104,8 @@ fn c12_lzip_next_member_own_dict() {
     kani::assume(db >= 12 && db <= 20);
     let mut bytes = [0u8; 11];
     bytes[0] = b'L'; bytes[1] = b'Z'; bytes[2] = b'I'; bytes[3] = b'P'; bytes[4] = 1; bytes[5] = db;
-    let mut r = LZIPReader::new(Src::<11>::full(bytes)).unwrap();
+    let mut src = Src::<11>::full(bytes);
+    let mut r = LZIPReader::new(&mut src).unwrap();
     r.current_header = Some(LZIPHeader { version: 1, dict_size: 4096 });
     let res = r.start_next_member();
     assert!(matches!(res, Ok(true)));
